@@ -1,7 +1,7 @@
 (* C02: the two window scans of the code compute the declarative rule. *)
 From Coq Require Import List NArith ZArith QArith Qcanon Bool Lia Sorted.
 From ACB Require Import Base.Outcome Base.QcExtra Base.Fit Base.Arith Model.Tx Model.Ledger Model.Sfl
-     Model.DeltaList Spec.SflRule Proofs.Tactics.
+     Model.DeltaList Spec.SflRule Proofs.Tactics Proofs.EffCent.
 Import ListNotations.
 Local Open Scope Qc_scope.
 
@@ -287,6 +287,10 @@ Proof.
   eexists; split; [reflexivity|]. cbn. auto.
 Qed.
 
+(* Since the fix "treat a superficial loss that rounds to zero effective
+   cents as no superficial loss": the sale carries a superficial loss exactly
+   when the rule says so AND the denied amount (the loss times the ratio,
+   snapped to the cent when within 1e-10 of one) is not zero. *)
 Theorem delta_sfl_auto_rule bef t sold aft st loss r :
   sd_sorted aft -> sd_sorted_desc bef ->
   delta_sfl exact bef t sold None aft st loss = Ok r ->
@@ -296,8 +300,11 @@ Theorem delta_sfl_auto_rule bef t sold aft st loss r :
       rule_superficial bef t aft all0 /\
       sf_num info = Qcmin sold (Qcmin (rule_acquired bef t aft) (rule_held_end all0 t aft)) /\
       sf_den info = sold /\
-      sf_amount info = eff_cent_val (loss * (sf_num info / sold))
-  | None => ~ rule_superficial bef t aft all0
+      sf_amount info = eff_cent_val (loss * (sf_num info / sold)) /\
+      sf_amount info < 0
+  | None =>
+      rule_superficial bef t aft all0 ->
+      eff_cent_val (loss * rule_ratio sold (rule_acquired bef t aft) (rule_held_end all0 t aft)) = 0
   end.
 Proof.
   intros Hsa Hsb H all0. unfold delta_sfl in H.
@@ -306,18 +313,24 @@ Proof.
   destruct i as [s|].
   - destruct Ei as (Hacq & Heop & Hsup).
     apply sfl_ratio_some in Em as (rr & -> & Hn & Hd).
-    bind_as H as calc Ec. bind_as H as c Ec'. bind_as H as txs Et.
-    inversion H; subst r; clear H. cbn [sf_num sf_den sf_amount].
-    apply neg_unwrap_ok in Ec' as [-> _].
+    bind_as H as calc Ec.
     cbn [a_div exact] in Ec. destruct (Qceqb_spec (sr_den rr) 0) as [|Hden]; cbn [bind] in Ec; [discriminate|].
     bind_as Ec as q1 E1. apply pos_unwrap_ok in E1 as [-> _].
     unfold neg_mul_pos in Ec. cbn [a_mul exact bind] in Ec.
     bind_as Ec as l El. apply neg_unwrap_ok in El as [-> _].
-    bind_as Ec as cc Ecc. apply eff_cent_exact in Ecc. apply neg_unwrap_ok in Ec as [-> _].
-    split; [exact Hsup|]. split; [rewrite Hn, min3_Qcmin, Hacq, Heop; reflexivity|].
-    split; [exact Hd|]. rewrite Ecc, Hd. reflexivity.
+    bind_as Ec as cc Ecc. apply eff_cent_exact in Ecc. apply lez_unwrap_ok in Ec as [-> Hle].
+    assert (Hnum : sr_num rr = Qcmin sold (Qcmin (rule_acquired bef t aft) (rule_held_end all0 t aft)))
+      by (rewrite Hn, min3_Qcmin, Hacq, Heop; reflexivity).
+    destruct (Qcltb_spec cc 0) as [Hneg|Hneg]; cbn [negb] in H.
+    + bind_as H as txs Et.
+      inversion H; subst r; clear H. cbn [sf_num sf_den sf_amount].
+      split; [exact Hsup|]. split; [exact Hnum|].
+      split; [exact Hd|]. split; [|exact Hneg]. rewrite Ecc, Hd. reflexivity.
+    + inversion H; subst r; clear H. intros _.
+      unfold rule_ratio. rewrite <- Hnum. rewrite Hd in Ecc. rewrite <- Ecc.
+      apply Qcle_antisym; [exact Hle | now apply Qcnot_lt_le].
   - unfold sfl_ratio in Em. inversion Em; subst m.
-    cbn [bind] in H. inversion H; subst r. exact Ei.
+    cbn [bind] in H. inversion H; subst r. intros Hs. contradiction.
 Qed.
 
 (* ---- user-supplied superficial loss ---- *)
@@ -348,7 +361,7 @@ Definition computed_sfl (bef : list tx) (t : tx) (sold : Qc) (aft : list tx) (st
       q1 <- pos_unwrap Site.ratio_to_pos q ;;
       l <- neg_mul_pos exact loss q1 ;;
       c <- eff_cent exact l ;;
-      neg_unwrap Site.eff_cent c
+      lez_unwrap Site.eff_cent c
   | None => Ok 0
   end.
 
